@@ -431,8 +431,11 @@ pub fn chase(
     locals: &BTreeMap<String, String>,
     key: &str,
 ) -> Result<Option<String>, Error> {
-    // The haystack is a reverse iterator over both lists in series
-    let mut haystack = globals.iter().chain(locals.iter()).rev();
+    // The haystack is both lists in series, searched in reverse. Every look-up
+    // starts over, skipping the elements already visited, so the result does
+    // not depend on the lexical order of the parameter names involved
+    let haystack: Vec<_> = globals.iter().chain(locals.iter()).rev().collect();
+    let mut visited = vec![false; haystack.len()];
 
     // Find the needle in the haystack, recursively chasing look-ups ('$')
     // and handling defaults ('*')
@@ -447,7 +450,7 @@ pub fn chase(
     let value;
 
     loop {
-        let found = haystack.find(|&x| x.0 == needle);
+        let found = (0..haystack.len()).find(|&i| !visited[i] && haystack[i].0 == needle);
         if found.is_none() {
             if !default.is_empty() {
                 return Ok(Some(String::from(default)));
@@ -459,7 +462,8 @@ pub fn chase(
             }
             return Ok(None);
         }
-        let thevalue = found.unwrap().1.trim();
+        visited[found.unwrap()] = true;
+        let thevalue = haystack[found.unwrap()].1.trim();
 
         // If the value is a(nother) lookup, we continue the search in the same iterator,
         // now using a *new search key*, as specified by the current value
